@@ -783,4 +783,56 @@ theorem ss_cb (a1 b1 s20 s21 : V2 K) (S r20 r21 : K) (hS : proj1 a1 b1 b1 = S) (
 
 end ss
 
+
+section sides
+variable (sq : K → K)
+set_option linter.style.haveILetI false
+
+/-! ## side indices of `clip_aabb_line` -/
+
+/-- the side index `s` names a face that the point `o + t·d` lies on: `k+1` = the `mins` face of axis `k`,
+`-(k+1)` = its `maxs` face; `0` = no face (no axis has constrained the parameter, which is then still `unconstrained`) -/
+def FaceHit (b : Aabb3 K) (o d : V3 K) (t : K) (s : Int) (unconstrained : K) : Prop :=
+  (s = 0 ∧ t = unconstrained) ∨
+  ∃ k : Fin 3, (s = (k.val : Int) + 1 ∧ o.get k.val + d.get k.val * t = b.mins.get k.val) ∨
+               (s = -((k.val : Int) + 1) ∧ o.get k.val + d.get k.val * t = b.maxs.get k.val)
+
+theorem clipUpdate_sides (b : Aabb3 K) (o d : V3 K) (st st' : ClipState K) (near far : K) (flip : Bool) (i : Fin 3)
+    (hn : o.get i.val + d.get i.val * near = (if flip then b.maxs.get i.val else b.mins.get i.val))
+    (hf : o.get i.val + d.get i.val * far = (if flip then b.mins.get i.val else b.maxs.get i.val))
+    (h1 : FaceHit b o d st.tmin st.nearSide (-big K)) (h2 : FaceHit b o d st.tmax st.farSide (big K))
+    (h : @clipUpdate K (fieldNum K sq) st near far flip i = some st') :
+    FaceHit b o d st'.tmin st'.nearSide (-big K) ∧ FaceHit b o d st'.tmax st'.farSide (big K) := by
+  simp only [clipUpdate] at h
+  cases flip <;> simp only [Bool.false_eq_true, if_false, if_true, Bool.not_false, Bool.not_true] at h hn hf <;>
+    split_ifs at h <;> simp only [Option.some.injEq] at h <;> subst h <;> (try simp only []) <;>
+    first
+    | exact ⟨h1, h2⟩
+    | exact ⟨Or.inr ⟨i, Or.inl ⟨rfl, hn⟩⟩, h2⟩
+    | exact ⟨Or.inr ⟨i, Or.inr ⟨rfl, hn⟩⟩, h2⟩
+    | exact ⟨h1, Or.inr ⟨i, Or.inl ⟨rfl, hf⟩⟩⟩
+    | exact ⟨h1, Or.inr ⟨i, Or.inr ⟨rfl, hf⟩⟩⟩
+    | exact ⟨Or.inr ⟨i, Or.inl ⟨rfl, hn⟩⟩, Or.inr ⟨i, Or.inr ⟨rfl, hf⟩⟩⟩
+    | exact ⟨Or.inr ⟨i, Or.inr ⟨rfl, hn⟩⟩, Or.inr ⟨i, Or.inl ⟨rfl, hf⟩⟩⟩
+
+
+theorem clipStep_sides (b : Aabb3 K) (o d : V3 K) (st st' : ClipState K) (i : Fin 3)
+    (h1 : FaceHit b o d st.tmin st.nearSide (-big K)) (h2 : FaceHit b o d st.tmax st.farSide (big K))
+    (h : @clipStep K (fieldNum K sq) b o d st i = some st') :
+    FaceHit b o d st'.tmin st'.nearSide (-big K) ∧ FaceHit b o d st'.tmax st'.farSide (big K) := by
+  simp only [clipStep] at h
+  by_cases hz : @neq K (fieldNum K sq) (d.get i.val) 0 = true
+  · rw [if_pos hz] at h
+    split_ifs at h with hout
+    simp only [Option.some.injEq] at h; subst h; exact ⟨h1, h2⟩
+  · rw [if_neg hz] at h
+    have hd : d.get i.val ≠ 0 := by
+      intro h0; apply hz; simp [neq, h0]
+    refine clipUpdate_sides sq b o d st st' _ _ _ i ?_ ?_ h1 h2 h
+    · split_ifs <;> field_simp <;> ring
+    · split_ifs <;> field_simp <;> ring
+
+
+end sides
+
 end C17
